@@ -31,7 +31,7 @@ fn main() {
     let v = arg.get::<String>("verbose").unwrap_or("info".into());
     let number = &arg.orphans[0];
     let n = U1024::from_str(number).expect("could not read decimal number");
-    const MAXBITS: u32 = 512;
+    const MAXBITS: u32 = 500;
     if n.bits() > MAXBITS {
         panic!(
             "Number size ({} bits) exceeds {MAXBITS} bits limit",
